@@ -6,6 +6,8 @@ use serde_json::Value;
 pub mod bytesgen;
 pub mod c02;
 pub mod c03;
+pub mod c05;
+pub mod c06;
 pub mod c07;
 pub mod c12;
 pub mod codec;
@@ -17,6 +19,8 @@ pub fn run(prop: &str, leg: &str, ctx: &Ctx, rep: &mut Report) -> bool {
         ("C02", "boundary") => c02::boundary(ctx, rep),
         ("C03", "decoders") => c03::decoders(ctx, rep),
         ("C03", "verify-hostile") => c03::verify_hostile(ctx, rep),
+        ("C05", "roundtrip") => c05::roundtrip(ctx, rep),
+        ("C06", "canonical") => c06::canonical(ctx, rep),
         ("C07", "small-exhaustive") => c07::small_exhaustive(ctx, rep),
         ("C07", "compress-sweep") => c07::compress_sweep(ctx, rep),
         ("C07", "cursor") => c07::cursor(ctx, rep),
@@ -34,6 +38,8 @@ pub fn replay(v: &Value) -> bool {
         "C12" => c12::replay(r),
         "C07" => codec::replay(r),
         "C03" => c03::replay(r),
+        "C05" => c05::replay(r),
+        "C06" => c06::replay(r),
         "C02" => c02::replay(r),
         _ => {
             eprintln!("no replay for {}", prop);
